@@ -26,14 +26,16 @@ B3Cont(c) == IF c = 1 THEN [defs |-> <<3, 2, 3, 0, 1, 2>>, reps |-> <<0, 1, 1, 0
              ELSE [defs |-> <<1, 0, 1, 1>>, reps |-> <<0, 0, 0, 0>>, vals |-> <<Tk(5, 0, 2), Tk(5, 0, 6), Tk(5, 0, 7)>>]
 
 \* bases 4..6: the shapes of 1..3 with compressed pages (SNAPPY, LZ4, SNAPPY); bases 7..9: the shapes with two row groups
-Shape(b) == ((b - 1) % 3) + 1
+\* bases 10, 11: the dictionary shape with PLAIN and dictionary-encoded data pages in one chunk (fall-back / reverse order)
+Shape(b) == IF b >= 10 THEN 2 ELSE ((b - 1) % 3) + 1
 BaseCodec(b) == IF b \in {4, 6} THEN 1 ELSE IF b = 5 THEN 5 ELSE 0
-BaseGroups(b) == IF b >= 7 THEN 2 ELSE 1
+BaseGroups(b) == IF b \in 7..9 THEN 2 ELSE 1
+BaseMix(b) == IF b = 10 THEN "fallback" ELSE IF b = 11 THEN "reverse" ELSE "all"
 BaseElems(b) == IF Shape(b) = 3 THEN B3Elems ELSE B1Elems
 BaseLeaves(b) == IF Shape(b) = 3 THEN B3Leaves ELSE B1Leaves
 BaseCont(b, c) == IF Shape(b) = 3 THEN B3Cont(c) ELSE B1Cont(c)
-BaseCuts(b, c) == IF Shape(b) = 3 THEN (IF c = 1 THEN <<3, 6>> ELSE <<1, 4>>) ELSE <<2, 6>>
-BaseOpt(b) == IF Shape(b) = 2 THEN [DefaultOpt EXCEPT !.useDict = TRUE, !.crc = "good", !.codec = BaseCodec(b)]
+BaseCuts(b, c) == IF Shape(b) = 3 THEN (IF c = 1 THEN <<3, 6>> ELSE <<1, 4>>) ELSE IF b >= 10 THEN <<4, 6>> ELSE <<2, 6>>
+BaseOpt(b) == IF Shape(b) = 2 THEN [DefaultOpt EXCEPT !.useDict = TRUE, !.crc = "good", !.codec = BaseCodec(b), !.mixEnc = BaseMix(b)]
               ELSE [DefaultOpt EXCEPT !.crc = "good", !.codec = BaseCodec(b)]
 
 \* description with an optional page-header mutation on (column c, page k)
